@@ -1015,3 +1015,61 @@ Example C07_example_results_membership :
   stored_by kcls qcls 3 (S2Base (SoReplace (k_ 8 8))) (R2Base (SElem (k_ 7 8)))
             (fsfinal2 kcls qcls 3 (firstn 9 C07_ops2) []) (k_ 8 8).
 Proof. split; [vm_compute; reflexivity | split; [reflexivity | discriminate]]. Qed.
+
+(* ------------------------------------------------------------------------
+   Set methods under an OPERAND-DETERMINED == that is no equivalence
+   (Proofs/PureEq.v, Proofs/PureEqSet.v: [Related E ck cq R], R an arbitrary
+   relation on classes, stored element on the left, needle on the right).
+   "insert returns true exactly when the element was absent" keeps the only
+   meaning such an == leaves: insert and contains find the SAME slot
+   ([find_rel]), because every scan puts its operands the same way round.
+   ------------------------------------------------------------------------ *)
+Require Import Proofs.PureEq Proofs.PureEqSet.
+
+Theorem C07_insert_contains_agree_any_relation :
+  forall (K Q T : Type) (E : env K unit Q T) (debug : bool) (ck : K -> N) (cq : Q -> N) (R : N -> N -> bool)
+         (HR : Related E ck cq R) (k : K) (q : Q) (w : world K unit T),
+    ck k = cq q -> WF (self w) ->
+    wp (s_insert E debug k)
+       (fun (r : bool) (_ : world K unit T) =>
+          wp (s_contains E q)
+             (fun (g : bool) (_ : world K unit T) => (r = false <-> g = true) /\ r = negb g)
+             (fun _ : world K unit T => False) w)
+       (fun _ : world K unit T =>
+          wp (s_contains E q)
+             (fun (g : bool) (_ : world K unit T) => g = false /\ len (self w) = cap (self w))
+             (fun _ : world K unit T => False) w) w.
+Proof. exact (fun K Q T E debug ck cq R HR => set_insert_contains_agree_rel E debug ck cq R HR). Qed.
+Print Assumptions C07_insert_contains_agree_any_relation.
+
+Theorem C07_contains_any_relation :
+  forall (K Q T : Type) (E : env K unit Q T) (ck : K -> N) (cq : Q -> N) (R : N -> N -> bool)
+         (HR : Related E ck cq R) (q : Q) (w : world K unit T),
+    WF (self w) ->
+    wp (s_contains E q)
+       (fun (r : bool) (w' : world K unit T) =>
+          stable w w' /\
+          r = (match find_rel ck R (cq q) (Spec.elems (self w)) with Some _ => true | None => false end) /\
+          (r = true <-> exists i, find_rel ck R (cq q) (Spec.elems (self w)) = Some i))
+       (fun _ : world K unit T => False) w.
+Proof. exact (fun K Q T E ck cq R HR => set_contains_rel E ck cq R HR). Qed.
+Print Assumptions C07_contains_any_relation.
+
+(* non-vacuity: the interpreter's set environment under a script of the fifth kind (asymmetric "<=" on classes) *)
+Theorem C07_insert_contains_agree_asym :
+  forall (sc : script) (dbg : bool) (k : key) (q : query) (w : world key unit cstate),
+    asym sc = true -> sc_fk sc = 0%N -> kcls k = qcls q -> WF (self w) ->
+    wp (s_insert (env_set sc) dbg k)
+       (fun (r : bool) (_ : world key unit cstate) =>
+          wp (s_contains (env_set sc) q)
+             (fun (g : bool) (_ : world key unit cstate) => (r = false <-> g = true) /\ r = negb g)
+             (fun _ : world key unit cstate => False) w)
+       (fun _ : world key unit cstate =>
+          wp (s_contains (env_set sc) q)
+             (fun (g : bool) (_ : world key unit cstate) => g = false /\ len (self w) = cap (self w))
+             (fun _ : world key unit cstate => False) w) w.
+Proof.
+  exact (fun sc dbg k q w Ha Hf =>
+           set_insert_contains_agree_rel (env_set sc) dbg kcls qcls N.leb (env_set_related sc Ha Hf) k q w).
+Qed.
+Print Assumptions C07_insert_contains_agree_asym.
